@@ -25,6 +25,36 @@ def copy_repo(tag):
     return d
 
 
+def notes_summary(path):
+    """what the change is, what it breaks and what it needs to manifest, taken from the sub-agent's NOTES.md sections"""
+    out = dict(change="", breaks="", needs_to_manifest="see NOTES.md")
+    try:
+        txt = open(path).read()
+    except OSError:
+        return out
+    secs = []
+    for line in txt.splitlines():
+        if line.startswith("#") and not line.startswith("# " * 1 + " "):
+            if line.lstrip("#").strip() and (line.startswith("## ") or not secs):
+                secs.append([line.lstrip("#").strip(), []])
+                continue
+        if secs:
+            secs[-1][1].append(line)
+    def body(b):
+        return " ".join(x.strip() for x in b if x.strip() and not x.startswith("```"))[:1500]
+    if secs:
+        out["title"] = secs[0][0]
+    for head, b in secs:
+        h = head.lower()
+        if h.startswith("the change"):
+            out["change"] = body(b)
+        elif "clause" in h:
+            out["breaks"] = body(b)
+        elif "needs" in h and "manifest" in h:
+            out["needs_to_manifest"] = body(b)
+    return out
+
+
 def main():
     pid, v = sys.argv[1], sys.argv[2]
     extra = sys.argv[3:]
@@ -65,7 +95,7 @@ def main():
         shutil.rmtree(clean, ignore_errors=True)
         shutil.rmtree(pat, ignore_errors=True)
     notes = open(os.path.join(dst, "NOTES.md")).read() if os.path.exists(os.path.join(dst, "NOTES.md")) else ""
-    meta["needs_to_manifest"] = "see NOTES.md"
+    meta.update(notes_summary(os.path.join(dst, "NOTES.md")))
     json.dump(meta, open(os.path.join(dst, "meta.json"), "w"), indent=1)
     print(json.dumps({k: meta[k] for k in ("property", "variant", "confirmed", "demo_clean_rc", "demo_patched_rc", "fast_tests_pass", "caught_by")}), meta["checks"])
 
